@@ -85,6 +85,7 @@ class Sys(object):
         x0 = make_input(REC_POINT, reckind, seed) if reckind != 'nd' else np.array(PR.POINTS[REC_POINT], dtype=float)
         self.cg, self.x, self.y = PR.record(prog, x0)
         self.other = None
+        self.held = []
 
 
 def seed_of(kind, shape, seed):
@@ -107,6 +108,22 @@ def out_size(sys_):
 
 
 def step(sys_, ev):
+    raw = step_raw(sys_, ev)
+    if isinstance(raw, np.ndarray):
+        # results handed out earlier in this history must not change when later calls are made
+        for k, (obj, snap) in enumerate(sys_.held):
+            if obj.shape != snap.shape or not np.array_equal(obj, snap, equal_nan=True):
+                raise HeldResultChanged('result returned by call %d changed after a later call' % k)
+        sys_.held.append((raw, np.array(raw, copy=True)))
+        return np.array(raw, copy=True)
+    return raw
+
+
+class HeldResultChanged(Exception):
+    pass
+
+
+def step_raw(sys_, ev):
     cg = sys_.cg
     seed = sys_.seed
     kind = ev[0]
@@ -114,7 +131,7 @@ def step(sys_, ev):
     if kind == 'fwd':
         inp = make_input(ev[1], ev[2], seed)
         out = cg.function([inp])[0]
-        return np.array(out.data if isinstance(out, UTPM) else out, copy=True)
+        return out.data if isinstance(out, UTPM) else np.asarray(out)
     if kind == 'rev':
         y = sys_.y.x
         ybar = UTPM(seed_of(ev[1], y.data.shape, seed))
@@ -124,17 +141,17 @@ def step(sys_, ev):
         return {'xbar': sys_.x.xbar.data.copy(), 'values_intact': before == after}
     pt = np.array(PR.POINTS[ev[1]], dtype=float) if len(ev) > 1 else None
     if kind == 'gradient':
-        return np.array(cg.gradient(pt), copy=True)
+        return np.asarray(cg.gradient(pt))
     if kind == 'jacobian':
-        return np.array(cg.jacobian(pt), copy=True)
+        return np.asarray(cg.jacobian(pt))
     if kind == 'hessian':
-        return np.array(cg.hessian(pt), copy=True)
+        return np.asarray(cg.hessian(pt))
     if kind == 'hess_vec':
-        return np.array(cg.hess_vec(pt, vec(NX, 1, seed)), copy=True)
+        return np.asarray(cg.hess_vec(pt, vec(NX, 1, seed)))
     if kind == 'vec_jac':
-        return np.array(cg.vec_jac(vec(out_size(sys_), 2, seed), pt), copy=True)
+        return np.asarray(cg.vec_jac(vec(out_size(sys_), 2, seed), pt))
     if kind == 'jac_vec':
-        return np.array(cg.jac_vec(pt, vec(NX, 3, seed)), copy=True)
+        return np.asarray(cg.jac_vec(pt, vec(NX, 3, seed)))
     if kind == 'other':
         cg2, x2, y2 = PR.record(PR.SCENARIOS['view1'], np.array(PR.POINTS[2], dtype=float))
         g = cg2.gradient(np.array(PR.POINTS[1], dtype=float))
@@ -320,6 +337,8 @@ def explore_program(prog, reckind, tier, seed, depth=None, only_history=None):
             Function.cgraph = g       # computing references records fresh graphs; restore the global
 
     def check_(hist, ev, obs, exc, sys_):
+        if isinstance(exc, HeldResultChanged):
+            return {'kind': 'earlier-result-overwritten', 'error': str(exc)}
         if exc is not None:
             return {'kind': 'exception-after-history', 'error': AD.last_line(exc)}
         if ev[0] == 'rev':
